@@ -229,7 +229,18 @@ func visitInstr(fr *frame, instr ssa.Instruction) continuation {
 		fr.env[instr] = fr.get(instr.X) // (can't fail)
 
 	case *ssa.Convert:
-		fr.env[instr] = conv(instr.Type(), instr.X.Type(), fr.get(instr.X))
+		cx := fr.get(instr.X)
+		if r, ok := cx.(*rope); ok {
+			if sl, ok := instr.Type().Underlying().(*types.Slice); ok {
+				if b, ok := sl.Elem().Underlying().(*types.Basic); ok && b.Kind() == types.Uint8 {
+					if lb, ok := r.lazyBytes(); ok {
+						fr.env[instr] = lb
+						break
+					}
+				}
+			}
+		}
+		fr.env[instr] = conv(instr.Type(), instr.X.Type(), force(cx))
 
 	case *ssa.SliceToArrayPointer:
 		fr.env[instr] = sliceToArrayPointer(instr.Type(), instr.X.Type(), fr.get(instr.X))
@@ -241,7 +252,7 @@ func visitInstr(fr *frame, instr ssa.Instruction) continuation {
 		fr.env[instr] = fr.get(instr.Tuple).(tuple)[instr.Index]
 
 	case *ssa.Slice:
-		fr.env[instr] = fr.sliceOp(fr.get(instr.X), fr.get(instr.Low), fr.get(instr.High), fr.get(instr.Max))
+		fr.env[instr] = fr.sliceOp(force(fr.get(instr.X)), fr.get(instr.Low), fr.get(instr.High), fr.get(instr.Max))
 
 	case *ssa.Return:
 		switch len(instr.Results) {
@@ -357,8 +368,10 @@ func visitInstr(fr *frame, instr ssa.Instruction) continuation {
 		fr.env[instr] = makeMap(instr.Type().Underlying().(*types.Map).Key(), reserve)
 
 	case *ssa.Range:
-		if ss, ok := fr.get(instr.X).(sstr); ok {
+		if ss, ok := force(fr.get(instr.X)).(sstr); ok {
 			fr.env[instr] = &sstrIter{fr: fr, s: ss}
+		} else if mm, ok := fr.get(instr.X).(map[value]value); ok {
+			fr.env[instr] = fr.mapRange(mm)
 		} else {
 			fr.env[instr] = rangeIter(fr.get(instr.X), instr.X.Type())
 		}
@@ -393,7 +406,7 @@ func visitInstr(fr *frame, instr ssa.Instruction) continuation {
 		}
 
 	case *ssa.Index:
-		x := fr.get(instr.X)
+		x := force(fr.get(instr.X))
 		idx := fr.get(instr.Index)
 
 		switch x := x.(type) {
@@ -412,18 +425,15 @@ func visitInstr(fr *frame, instr ssa.Instruction) continuation {
 		}
 
 	case *ssa.Lookup:
-		fr.env[instr] = lookup(instr, fr.get(instr.X), fr.get(instr.Index))
+		fr.env[instr] = fr.lookupOp(instr, fr.get(instr.X), force(fr.get(instr.Index)))
 
 	case *ssa.MapUpdate:
 		m := fr.get(instr.Map)
-		key := fr.get(instr.Key)
+		key := force(fr.get(instr.Key))
 		v := fr.get(instr.Value)
 		switch m := m.(type) {
 		case map[value]value:
-			if m == nil {
-				panic(targetPanic{iface{fr.i.runtimeErrorString, "assignment to entry in nil map"}})
-			}
-			m[mapKey(key)] = v
+			fr.mapStore(m, key, v)
 		case *hashmap:
 			m.insert(key.(hashable), v)
 		default:
@@ -581,6 +591,9 @@ func callSSA(i *interpreter, caller *frame, callpos token.Pos, fn *ssa.Function,
 		}
 		if i.px != nil {
 			i.px.intr[fn.String()]++
+		}
+		if !lazyOK[fn.String()] {
+			forceAll(args)
 		}
 		return ext(fr, args)
 	}
